@@ -1,77 +1,10 @@
-import CentrifugeVerif.DriverLib
-import CentrifugeVerif.Model.WS.Reader
-import CentrifugeVerif.Spec.WSSpec
+import CentrifugeVerif.Model.WS.Fmt
 /-!
 Driver for C29.  Line:
 `rd side=s|c comp=0|1 rl=N dl=N h=0|1 data=<hex> inf=<hexin>:<hexout|!>,…`
-(other keys are for the Go harness only).  Output:
-`M ev=<events> w=<written frames> dev=<lenient branches> S ev=<spec events>`.
+Output: `M ev=<events> w=<written frames> dev=<lenient branches> S ev=<spec events>`
+(`M` = model of the Go reader, `S` = RFC specification).
 -/
 open CentrifugeVerif DriverLib WS
 
-def evStr (showCtl : Bool) (es : List Event) : String :=
-  let strs := es.filterMap fun e =>
-    match e with
-    | .msg t d => some s!"m{t}:{hex d}"
-    | .ping d => if showCtl then some s!"pi:{hex d}" else none
-    | .pong d => if showCtl then some s!"po:{hex d}" else none
-    | .close c r => some s!"cl:{c}:{hex r}"
-    | .protoError => some "proto"
-    | .tooBig => some "toobig"
-    | .incomplete => some "eof"
-    | .badData => some "baddata"
-  if strs.isEmpty then "-" else joinWith "," strs
-
-def hex2 (n : Nat) : String := String.ofList [hexNibble (n / 16 % 16), hexNibble (n % 16)]
-
-def wStr (ws : List WFrame) : String :=
-  if ws.isEmpty then "-" else joinWith "," (ws.map fun f => s!"{hex2 (128 + f.opcode)}:{hex f.payload}")
-
-def devStr (ds : List Reader.Dev) : String :=
-  if ds.isEmpty then "-" else joinWith "," (ds.map fun d =>
-    match d with
-    | .rsv1Control => "rsv1ctl" | .rsv1Continuation => "rsv1cont" | .close1 => "close1"
-    | .len64Msb => "msb" | .lengthOverflow => "overflow")
-
-def parseInf (s : String) : Option (List (Bytes × Option Bytes)) :=
-  if s == "" || s == "-" then some [] else
-  (s.splitOn ",").mapM fun pair =>
-    match pair.splitOn ":" with
-    | [k, v] =>
-      match unhex k with
-      | none => none
-      | some kb => if v == "!" then some (kb, none) else (unhex v).map fun vb => (kb, some vb)
-    | _ => none
-
-def lookupInf (tbl : List (Bytes × Option Bytes)) (k : Bytes) : Option Bytes :=
-  match tbl.find? (fun p => p.1 == k) with
-  | some (_, v) => v
-  | none => none
-
-/-- model events: the terminal event is replaced by the precise Go error class -/
-def modelEv (showCtl : Bool) (st : Reader.RState) : String :=
-  let base := st.events.dropLast
-  let last := match st.result with
-    | some .eofRaw => "eofraw"
-    | some .unexpectedData => "internal"
-    | some (.panic _) => "PANIC"
-    | some .fuel => "FUEL"
-    | _ => evStr true (st.events.drop (st.events.length - 1))
-  let b := evStr showCtl base
-  if b == "-" then last else b ++ "," ++ last
-
-def step (line : String) : String :=
-  match words line with
-  | "rd" :: ws =>
-    match kv ws "side", kvNat ws "comp", kvNat ws "rl", kvNat ws "dl", kvNat ws "h",
-          (kv ws "data").bind unhex, parseInf ((kv ws "inf").getD "-") with
-    | some side, some comp, some rl, some dl, some h, some data, some tbl =>
-      let cfg : Cfg := { server := side == "s", deflate := comp == 1, readLimit := rl,
-                         inflatedLimit := dl, inflate := lookupInf tbl }
-      let st := Reader.runReader cfg data
-      let sp := Spec.decode cfg Reader.goValidCloseCode data
-      s!"M ev={modelEv (h == 1) st} w={wStr st.written} dev={devStr st.devs} S ev={evStr (h == 1) sp}"
-    | _, _, _, _, _, _, _ => "bad-op"
-  | _ => "bad-op"
-
-def main : IO Unit := runPure step
+def main : IO Unit := runPure Fmt.rdStep
